@@ -487,6 +487,83 @@ def task_bus(t):
     return {'viol': [v.to_json() for v in out], 'n': n}
 
 
+# ---- final admission: the bus's connect rules ------------------------------------------------------------------------
+
+ADM_SUBJECTS = [('user', '*'), ('user', '0'), ('user', '65534'), ('group', '*'), ('group', '0'), ('group', '65534')]
+ADM_UIDS = [0, 65534]
+
+
+def admission_configs():
+    import itertools
+    atoms = [(ctx_, act, kind, val) for ctx_ in ('default', 'mandatory') for act in ('allow', 'deny') for kind, val in ADM_SUBJECTS]
+    out = [[]] + [[a] for a in atoms] + [list(t) for t in itertools.product(atoms, repeat=2)]
+    return out
+
+
+def admission_model(rules, uid):
+    """The documented evaluation: the user that owns the bus may connect by default; then the default context's rules, then
+    the mandatory context's, each in file order; the last matching rule decides."""
+    import pwd
+    import os
+    try:
+        pw = pwd.getpwuid(uid)
+        groups = set(os.getgrouplist(pw.pw_name, pw.pw_gid))
+    except KeyError:
+        return None
+    allowed = (uid == os.geteuid())
+    for want_ctx in ('default', 'mandatory'):
+        for ctx_, act, kind, val in rules:
+            if ctx_ != want_ctx:
+                continue
+            if kind == 'user':
+                m = val == '*' or int(val) == uid
+            else:
+                m = val == '*' or int(val) in groups
+            if m:
+                allowed = (act == 'allow')
+    return allowed
+
+
+def task_admission(cfgs):
+    bus = worker_bus()
+    out = []
+    n = 0
+    for rules in cfgs:
+        sect = {'default': '', 'mandatory': ''}
+        for ctx_, act, kind, val in rules:
+            sect[ctx_] += '    <%s %s="%s"/>\n' % (act, kind, val)
+        # the mandatory section is written FIRST in the file: the contexts are evaluated in their documented order, not file order
+        policy = ('  <policy context="mandatory">\n' + sect['mandatory'] + '  </policy>\n'
+                  '  <policy context="default">\n    <allow send_destination="*" eavesdrop="true"/>\n    <allow eavesdrop="true"/>\n    <allow own="*"/>\n' + sect['default'] + '  </policy>\n')
+        for uid in ADM_UIDS:
+            want = admission_model(rules, uid)
+            if want is None:
+                continue
+            case = {'admission': [[list(r) for r in rules], uid]}
+            try:
+                bus.reset(B.make_config(policy=policy, auth=['EXTERNAL']))
+                c = bus.rawconnect(uid)
+                bus.rawmode.add(c)
+                o = bus.step(c, b'\0AUTH EXTERNAL ' + str(uid).encode().hex().encode() + b'\r\n', raw=True)
+                raw = o[c].raw if c in o else b''
+                if not raw.startswith(b'OK '):
+                    out.append(Violation('response', 'admission:EXTERNAL', 'uid %d with its own identity was answered %r' % (uid, raw), case))
+                    continue
+                bus.step(c, b'BEGIN\r\n', raw=True)
+                bus.rawmode.discard(c)
+                o = bus.step(c, R.encode_message(R.bus_call(1, 'Hello')))
+                rep = B.find_reply(o.get(c), 1)
+                got = rep is not None and rep.mtype == R.MT_RETURN
+                n += 1
+                if got != want:
+                    out.append(Violation('authenticated-without-valid-exchange' if got else 'valid-exchange-refused', 'admission:%s' % '+'.join(sorted({r[0] for r in rules})),
+                                         'connect rules %r, uid %d: Hello %s, the documented evaluation %s the connection' % (rules, uid, 'answered' if got else 'not answered', 'admits' if want else 'refuses'), case))
+            except HarnessDied as e:
+                out.append(crash_violation(e, case))
+                bus.h.close()
+    return {'viol': [v.to_json() for v in out[:6]], 'n': n}
+
+
 TCP_IDENTITIES = ['', '0', '1000', '65534', '4294967294', '4294967295', '18446744073709551615', '-1']
 
 
@@ -579,6 +656,15 @@ def run(ctx):
                 continue
             ctx.add_violations(r['viol'])
             ntcp += r['n']
+        acfg = admission_configs()
+        nadm = 0
+        for r in pool.imap(task_admission, [acfg[i:i + 12] for i in range(0, len(acfg), 12)]):
+            if '__crash__' in r:
+                ctx.add_violation(Violation('crash', r['__crash__'], r['stderr'], {'task': r['task']}))
+                continue
+            ctx.add_violations(r['viol'])
+            nadm += r['n']
+        ctx.coverage['admission_decisions'] = nadm
         for r in pool.imap(task_bus, tasks):
             if '__crash__' in r:
                 ctx.add_violation(Violation('crash', r['__crash__'], r['stderr'], {'task': r['task']}))
@@ -599,6 +685,8 @@ def run(ctx):
 
 
 def replay(case):
+    if 'admission' in case:
+        return [Violation.from_json(v) for v in task_admission([[tuple(r) for r in case['admission'][0]]])['viol']]
     if 'tcp' in case:
         return [Violation.from_json(v) for v in task_tcp([case['tcp'][0]])['viol']]
     if 'bus' in case:
